@@ -258,6 +258,9 @@ package db
 //@ // are reloaded before the transaction commits; a fresh store gets the marker in that same transaction
 //@ func (*DB).initialize -> (err)
 //@   assert before call#1 Commit: res(Has, 1, 0) && res(loadSchema, 1, 0) == nil && res(ReloadLenses, 1, 0) == nil
+//@   // the node access control state is recovered (or set up) before anything else, also when the store exists
+//@   assert before call#1 Commit: called(initializeNodeACP, 1) && res(initializeNodeACP, 1, 0) == nil
+//@   assert before call#2 Commit: called(initializeNodeACP, 1) && res(initializeNodeACP, 1, 0) == nil
 //@   assert before call#2 Commit: !res(Has, 1, 0) && res(Set, 1, 0) == nil
 //@   tags C14 C05
 //@ apply TxnAPI: (*DB).initialize
@@ -284,6 +287,11 @@ package db
 //@   assert before call#1 getActiveCollectionUp: arg3 == rootCol.VersionID && (len(sources) == 0 ==> rootCol.VersionID == res(GetCollectionByID, 1, 0).VersionID)
 //@   assert before call#2 SaveCollection: arg1.VersionID == activeCol.VersionID && isActiveFound
 //@   tags C19
+//@ // the running node shows what the store says (a restart must not change anything): every successful switch
+//@ // reloads the schema into the node, whether or not another version had to be deactivated
+//@ func (*DB).setActiveSchemaVersion -> (err)
+//@   ensures err == nil ==> called(loadSchema, 1) || called(loadSchema, 2)
+//@   tags C14 C19
 //@ apply ErrFlow: (*DB).setActiveSchemaVersion, (*DB).patchSchema
 //@ // a node merging commits of a newer schema version ignores fields it does not know, and only those
 //@ extern (client.CollectionDefinition).GetFieldByName(d, name) -> (f, ok)
